@@ -157,6 +157,30 @@ func runC20(c *Ctx) {
 			if u.IsWrite && !u.IsAddr {
 				c.Bad("next-reset@"+u.EnclName(), "a node's next pointer is never reset by a plain store", u.Where(c.P), "plain store to item.next in "+u.EnclName())
 			}
+			if !u.IsAddr {
+				continue
+			}
+			// &node.next handed to sync/atomic: a node's next changes exactly once, nil -> successor, by the linking CAS of Enqueue
+			var call *ast.CallExpr
+			for i := len(u.Path) - 1; i >= 0 && call == nil; i-- {
+				call, _ = u.Path[i].(*ast.CallExpr)
+			}
+			name := "?"
+			if call != nil {
+				if cal := callee(u.Pkg.TypesInfo, call); cal != nil {
+					name = cal.Name()
+				}
+			}
+			switch name {
+			case "LoadPointer":
+				c.Ok("next-op@"+u.EnclName()+"/Load", "reading a node's next pointer", u.Where(c.P))
+			case "CompareAndSwapPointer":
+				okCAS := len(call.Args) == 3 && isNilIdent(u.Pkg.TypesInfo, call.Args[1]) && u.EnclObj != nil && u.EnclObj.Name() == "Enqueue"
+				c.Check(okCAS, "next-op@"+u.EnclName()+"/CAS", "a node's next pointer changes only by the linking CAS nil→successor in Enqueue", u.Where(c.P), "CompareAndSwapPointer on item.next that is not the nil→node link of Enqueue")
+			default:
+				c.Bad("next-op@"+u.EnclName()+"/"+name, "a node's next pointer, once set, is never changed or cleared: a producer that still holds a dequeued node as its tail must see that it has a successor and help the tail forward instead of linking behind a node that left the list", u.Where(c.P),
+					name+" on item.next in "+u.EnclName()+": after the pointer is cleared a stalled Enqueue links its node behind a retired node and the element (and every later one linked after it) is lost")
+			}
 		}
 		c.Ok("next-never-reset", "no plain store to a node's next pointer exists", c.P.Pos(pk.Syntax[0].Pos()))
 	})
